@@ -126,6 +126,10 @@ pub trait IntRes {
     fn ir_vec(&mut self, code: i32, n: u32) -> Result<CVec<u64>, MyErr>;
     #[no_int_result]
     fn ir_plain(&mut self, code: i32) -> Result<u64, i32>;
+    /// method-level marker naming an alias inside a trait-level marker: integer-coded like the
+    /// rest (so the error's second field does not survive the crossing)
+    #[int_result(AliasRes)]
+    fn ir_alias(&self, code: i32) -> AliasRes<u64, TwoErr>;
 }
 
 #[cglue_trait]
@@ -608,6 +612,10 @@ macro_rules! implementor {
                 self.core.enter("ir_plain", code as u64, &[]);
                 if code != 0 { Err(code) } else { Ok(self.core.mix(16)) }
             }
+            fn ir_alias(&self, code: i32) -> AliasRes<u64, TwoErr> {
+                self.core.enter("ir_alias", code as u64, &[]);
+                if code != 0 { Err(TwoErr { code, detail: code.wrapping_mul(5) + 2 }) } else { Ok(self.core.mix(21)) }
+            }
         }
 
         impl Attrs for $name {
@@ -668,6 +676,7 @@ macro_rules! implementor {
             }
         }
 
+        // (ir_alias is implemented in the IntRes block below)
         impl IntResAlias for $name {
             fn ira_io(&self, code: i32) -> AliasRes<u64, std::io::Error> {
                 self.core.enter("ira_io", code as u64, &[]);
